@@ -4,3 +4,4 @@ import MsiProofs.Props.C18
 import MsiProofs.Props.C19
 import MsiProofs.Props.C14
 import MsiProofs.Props.C07
+import MsiProofs.Props.C11
